@@ -44,9 +44,17 @@ const (
 	UrlTwice Kind = "url-parameter-given-twice"
 	// UrlRMReused: strings only; one rule object serves two Url calls in a row: it is the caller's, and still complete.
 	UrlRMReused Kind = "url-rule-object-used-twice"
+	// StructWrappers / VarWrappers / MapWrappers / UrlWrappers: the value goes through every public spelling of the
+	// entry point (function forms, deprecated aliases, the validator-object form, forms that take functions and are
+	// given none or one under a name the rules do not use); all spellings must give the same result, which is then
+	// judged like the plain form's. A disagreement is returned as a text no model expects.
+	StructWrappers Kind = "struct-tag-every-spelling-of-the-entry-point"
+	VarWrappers    Kind = "var-every-spelling-of-the-entry-point"
+	MapWrappers    Kind = "map-every-spelling-of-the-entry-point"
+	UrlWrappers    Kind = "url-every-spelling-of-the-entry-point"
 )
 
-var All = []Kind{StructTag, StructRM, Var, Map, MapIface, SliceMap, Url, UrlEsc, StructTagHist, StructTagOtherTag, StructTagLocalFn, VarLocalFn, StructTagWide, MapLarge, StructRMAfterPlain, UrlMany, UrlTwice, UrlRMReused}
+var All = []Kind{StructTag, StructRM, Var, Map, MapIface, SliceMap, Url, UrlEsc, StructTagHist, StructTagOtherTag, StructTagLocalFn, VarLocalFn, StructTagWide, MapLarge, StructRMAfterPlain, UrlMany, UrlTwice, UrlRMReused, StructWrappers, VarWrappers, MapWrappers, UrlWrappers}
 
 // Box is the named carrier type for per-call rules.
 type Box[T any] struct{ F T }
@@ -54,9 +62,9 @@ type Box[T any] struct{ F T }
 // PathPrefix is the path under which the value is reported by each carrier ("" = no path).
 func PathPrefix(k Kind, v reflect.Value) string {
 	switch k {
-	case StructTag, StructTagHist, StructTagOtherTag, StructTagLocalFn, StructTagWide, StructRMAfterPlain:
+	case StructTag, StructTagHist, StructTagOtherTag, StructTagLocalFn, StructTagWide, StructRMAfterPlain, StructWrappers:
 		return "F"
-	case MapLarge:
+	case MapLarge, MapWrappers:
 		return "map[k]"
 	case StructRM:
 		return "Box[" + typeArgName(v.Type()) + "].F"
@@ -64,7 +72,7 @@ func PathPrefix(k Kind, v reflect.Value) string {
 		return "map[k]"
 	case SliceMap:
 		return "[0]map[k]"
-	case Url, UrlEsc, UrlMany, UrlTwice, UrlRMReused:
+	case Url, UrlEsc, UrlMany, UrlTwice, UrlRMReused, UrlWrappers:
 		return "k"
 	}
 	return ""
@@ -137,6 +145,37 @@ func TagTypeWide(t reflect.Type, rules string) reflect.Type {
 var builtinNames = []string{"to", "ge", "le", "oto", "gt", "lt", "eq", "noeq", "in", "include", "phone", "email", "idcard", "year", "year2month", "date", "datetime", "int", "ints", "float", "re", "ip", "ipv4", "ipv6", "unique", "json", "prefix", "suffix", "file", "dir"}
 
 func quiet(errBuf *strings.Builder, validName, objName, fieldName string, tv reflect.Value) {}
+
+// loud is registered under a name no rule list uses: it must never run.
+func loud(errBuf *strings.Builder, validName, objName, fieldName string, tv reflect.Value) {
+	errBuf.WriteString("WRAPPER-FUNCTION-RAN-UNDER-A-NAME-NO-RULE-USES; ")
+}
+
+type spelling struct {
+	name string
+	call func() error
+}
+
+// agree runs every spelling; the result is the first one's if all agree.
+func agree(sp []spelling) (string, bool) {
+	var first string
+	var firstNil bool
+	for i, s := range sp {
+		err := s.call()
+		txt, isNil := "", err == nil
+		if err != nil {
+			txt = err.Error()
+		}
+		if i == 0 {
+			first, firstNil = txt, isNil
+			continue
+		}
+		if txt != first || isNil != firstNil {
+			return "SPELLINGS-DISAGREE: " + sp[0].name + " gives " + strconv.Quote(first) + " but " + s.name + " gives " + strconv.Quote(txt), false
+		}
+	}
+	return first, firstNil
+}
 
 func localFns() valid.Name2FnMap {
 	m := valid.Name2FnMap{}
@@ -216,7 +255,7 @@ func Supports(k Kind, v reflect.Value) bool {
 	switch k {
 	case Url:
 		return v.Kind() == reflect.String && !strings.ContainsAny(v.String(), "&=?#%+") && !hasCtl(v.String())
-	case UrlEsc, UrlMany, UrlTwice, UrlRMReused:
+	case UrlEsc, UrlMany, UrlTwice, UrlRMReused, UrlWrappers:
 		return v.Kind() == reflect.String && !strings.ContainsAny(v.String(), "&=?#")
 	case StructRM:
 		return boxOf(v) != nil
@@ -333,6 +372,80 @@ func Validate(k Kind, v reflect.Value, rules string) (string, bool) {
 		err = valid.Url("http://h/p?a=1&k="+url.QueryEscape(v.String())+"&z=2", valid.RM{"k": rules})
 	case UrlTwice:
 		err = valid.Url("http://h/p?k=&a=1&k="+url.QueryEscape(v.String())+"&z=2", valid.RM{"k": rules})
+	case StructWrappers:
+		st := TagType(v.Type(), rules)
+		mk := func() interface{} {
+			p := reflect.New(st)
+			p.Elem().Field(0).Set(v)
+			return p.Interface()
+		}
+		return agree([]spelling{
+			{"Struct(src)", func() error { return valid.Struct(mk()) }},
+			{"ValidateStruct(src)", func() error { return valid.ValidateStruct(mk()) }},
+			{"ValidateStruct(src, \"valid\")", func() error { return valid.ValidateStruct(mk(), "valid") }},
+			{"NewVStruct().Valid(src)", func() error { return valid.NewVStruct().Valid(mk()) }},
+			{"NewVStruct(\"valid\").Valid(src)", func() error { return valid.NewVStruct("valid").Valid(mk()) }},
+			{"StructForFn(src, nil)", func() error { return valid.StructForFn(mk(), nil) }},
+			{"StructForFns(src, nil, nil)", func() error { return valid.StructForFns(mk(), nil, nil) }},
+			{"StructForFns(src, RM{}, {unused name})", func() error {
+				return valid.StructForFns(mk(), valid.RM{}, valid.Name2FnMap{"wrapperunused": loud})
+			}},
+			{"ValidStructForRule(nil, src)", func() error { return valid.ValidStructForRule(nil, mk()) }},
+			{"ValidStructForMyValidFn(src, unused name)", func() error { return valid.ValidStructForMyValidFn(mk(), "wrapperunused", loud) }},
+			{"NestedStructForRule(src, nil)", func() error { return valid.NestedStructForRule(mk(), nil) }},
+			{"Struct(src, RM{other field})", func() error { return valid.Struct(mk(), valid.RM{"NoSuchField": "required"}) }},
+			{"Struct(value, not pointer)", func() error { return valid.Struct(reflect.ValueOf(mk()).Elem().Interface()) }},
+		})
+	case VarWrappers:
+		return agree([]spelling{
+			{"Var(src, rules)", func() error { return valid.Var(v.Interface(), rules) }},
+			{"NewVVar().SetRules(rules).Valid(src)", func() error { return valid.NewVVar().SetRules(rules).Valid(v.Interface()) }},
+			{"NewVVar().SetValidFn(unused).SetRules(rules).Valid(src)", func() error {
+				return valid.NewVVar().SetValidFn("wrapperunused", loud).SetRules(rules).Valid(v.Interface())
+			}},
+			{"Var(pointer to src, rules)", func() error {
+				p := reflect.New(v.Type())
+				p.Elem().Set(v)
+				return valid.Var(p.Interface(), rules)
+			}},
+		})
+	case MapWrappers:
+		mk := func() interface{} {
+			m := reflect.MakeMap(reflect.MapOf(reflect.TypeOf(""), v.Type()))
+			m.SetMapIndex(reflect.ValueOf("k"), v)
+			return m.Interface()
+		}
+		return agree([]spelling{
+			{"Map(src, rm)", func() error { return valid.Map(mk(), valid.RM{"k": rules}) }},
+			{"MapFn(src, rm, nil)", func() error { return valid.MapFn(mk(), valid.RM{"k": rules}, nil) }},
+			{"MapFn(src, rm, {unused name})", func() error {
+				return valid.MapFn(mk(), valid.RM{"k": rules}, valid.Name2FnMap{"wrapperunused": loud})
+			}},
+			{"NewVMap().SetRule(rm).Valid(src)", func() error { return valid.NewVMap().SetRule(valid.RM{"k": rules}).Valid(mk()) }},
+			{"NewVMap().SetValidFn(unused).SetRule(rm).Valid(src)", func() error {
+				return valid.NewVMap().SetValidFn("wrapperunused", loud).SetRule(valid.RM{"k": rules}).Valid(mk())
+			}},
+			{"Map(pointer to src, rm)", func() error {
+				m := mk()
+				p := reflect.New(reflect.TypeOf(m))
+				p.Elem().Set(reflect.ValueOf(m))
+				return valid.Map(p.Interface(), valid.RM{"k": rules})
+			}},
+			{"Map(src, NewRule().Set(k, rules))", func() error { return valid.Map(mk(), valid.NewRule().Set("k", rules)) }},
+		})
+	case UrlWrappers:
+		u := "http://h/p?a=1&k=" + url.QueryEscape(v.String()) + "&z=2"
+		return agree([]spelling{
+			{"Url(src, rm)", func() error { return valid.Url(u, valid.RM{"k": rules}) }},
+			{"NewVUrl().SetRule(rm).Valid(src)", func() error { return valid.NewVUrl().SetRule(valid.RM{"k": rules}).Valid(u) }},
+			{"NewVUrl().SetValidFn(unused).SetRule(rm).Valid(src)", func() error {
+				return valid.NewVUrl().SetValidFn("wrapperunused", loud).SetRule(valid.RM{"k": rules}).Valid(u)
+			}},
+			{"Url(pointer to src, rm)", func() error { s := u; return valid.Url(&s, valid.RM{"k": rules}) }},
+			{"Url(src without scheme and host, rm)", func() error {
+				return valid.Url("/p?a=1&k="+url.QueryEscape(v.String())+"&z=2", valid.RM{"k": rules})
+			}},
+		})
 	case UrlRMReused:
 		rm := valid.RM{"k": rules, "a": "to=1~9"}
 		_ = valid.Url("http://h/p?a=1&k=other&z=2", rm)
